@@ -82,6 +82,13 @@ def d1_threading(ctx):
               "the table slice handed to chunk i is not wf_flat.iloc[slices[i]]", key="cbin->chunk:wf_flat")
     sls = [n for n in walk_function(fc.node) if isinstance(n, ast.Assign) and loc_name(n.targets[0]) == "slices"]
     oks = bool(sls) and "searchsorted(wf_flat['sample'], [s0_arr[i], s1_arr[i]])" in src(sls[0].value)
+    if sls and not oks and isinstance(sls[0].value, ast.ListComp) and len(sls[0].value.generators) == 1:
+        # for s0, s1 in zip(s0_arr, s1_arr): searchsorted(samples, [s0, s1])
+        g_ = sls[0].value.generators[0]
+        if isinstance(g_.target, ast.Tuple) and len(g_.target.elts) == 2 and isinstance(g_.iter, ast.Call) and call_name(g_.iter) == "zip" and len(g_.iter.args) == 2 \
+                and [loc_name(x) for x in g_.iter.args] == ["s0_arr", "s1_arr"] and not g_.ifs:
+            a_, b_ = (loc_name(x) for x in g_.target.elts)
+            oks = f"searchsorted(wf_flat['sample'], [{a_}, {b_}])" in src(sls[0].value)
     if sls and not oks:
         # contiguous chunks: one search over the chunk edges r_[s0_arr, ns]; chunk i owns rows [bounds[i], bounds[i + 1])
         duc = DefUse(fc.node)
@@ -430,11 +437,21 @@ def d5_gather(ctx):
         a, b = vs[0].args[0].elts
         nd = [d for d in du.defs if d.var == loc_name(b)]
         okn = loc_name(a) == "arr" and any("nan" in src(d.stmt) for d in nd if d.stmt is not None) and any("(1, arr.shape[1])" in src(d.value) for d in nd if d.value is not None)
+        if not okn and loc_name(a) == "arr" and isinstance(b, ast.Call):
+            # the row written in place: np.full((1, arr.shape[1]), np.nan) / np.nan * np.ones((1, arr.shape[1]))
+            bt = src(b).replace(" ", "")
+            okn = "(1,arr.shape[1])" in bt and "nan" in bt and call_name(b) in ("full", "ones", "empty", "zeros", "multiply") or \
+                ("(1,arr.shape[1])" in bt and "nan" in bt)
     ctx.check(okn, fi, vs[0] if vs else fi.node, vs[0] if vs else "vstack", "exactly one all-NaN row is appended after the data rows", "the NaN trace is not one row appended after the data", key="nan-row")
     fm = repo.fn("ibldsp.utils.make_channel_index")
     dum = DefUse(fm.node)
     pv = [d for d in dum.defs if d.var == "pad_val" and d.kind == "assign"]
-    okp = bool(pv) and loc_name(pv[0].value) == "nc" and any(d.var == "nc" and d.value is not None and src(d.value) == "geom.shape[0]" for d in dum.defs)
+    def _is_nc(e_):
+        return loc_name(e_) == "nc" or src(e_) in ("geom.shape[0]", "len(geom)")
+    okp = bool(pv) and any(d.var == "nc" and d.value is not None and src(d.value) in ("geom.shape[0]", "len(geom)") for d in dum.defs) and all(
+        _is_nc(d.value) or (isinstance(d.value, ast.IfExp) and "pad_val" in src(d.value.test) and "None" in src(d.value.test)
+                            and (_is_nc(d.value.body) if isinstance(d.value.test, ast.Compare) and isinstance(d.value.test.ops[0], ast.Is) else _is_nc(d.value.orelse)))
+        for d in pv)
     ctx.check(okp, fm, pv[0].stmt if pv else fm.node, pv[0].stmt if pv else "pad_val", "neighbour table is padded with nc = index of the appended NaN row", "pad index is not the number of channels (the NaN row's index)", key="pad-val")
     nb = [n for n in walk_function(fm.node) if isinstance(n, ast.Assign) and loc_name(n.targets[0]) == "neighbors"]
     okr = bool(nb) and any(isinstance(c.ops[0], ast.LtE) and loc_name(c.comparators[0]) == "radius" for c in find(nb[0].value, ast.Compare))
